@@ -573,3 +573,64 @@ def s18c_validate_boxes(ctx):
             r.sample({'box': label, 'validate': want})
     r.floor('validate boxes', 18, len(cases))
     return r
+
+
+def s18d_sequence_validate(ctx):
+    """Sequence::validate = every element passes the element test: the whole slice, universally quantified, the right predicate."""
+    f = ctx.facts('default')
+    r = RuleResult('S18d', 'Sequence::validate (values / candles) applies is_finite / OHLCV::validate to every element of the whole slice with `all` '
+                           '(no skipping, truncating or filtering adaptor, not `any`, result returned unchanged)')
+    want = {'G:<Q as core::sequence::Sequence<f64>>::validate': 'core::f64::<impl f64>::is_finite',
+            'G:<Q as core::sequence::Sequence<f32>>::validate': 'core::f32::<impl f32>::is_finite',
+            'G:<Q as core::sequence::Sequence<T>>::validate': 'core::ohlcv::OHLCV::validate'}
+    PASS = ('as_ref', 'iter', 'copied', 'cloned', 'into_iter', 'by_ref', 'borrow', 'deref', 'as_slice')
+    n = 0
+    for bid, pred in want.items():
+        bj = f.bodies.get(bid)
+        if bj is None:
+            continue
+        n += 1
+        b = Body(bj)
+        key = 'Sequence::validate|' + ('values' if 'OHLCV' not in pred else 'candles')
+        r.inst(key)
+        calls = [(bi, t) for bi, t in b.calls()]
+        names = [t['callee'].get('name') for _, t in calls]
+        bad = [x for x in names if x not in PASS and x != 'all']
+        if bad:
+            r.violate(key + '|adaptor|' + str(bad[0]), 'Sequence::validate passes its slice through `%s` before testing the elements: some elements are not examined / another question is asked' % bad[0], b.file, b.line)
+            continue
+        alls = [(bi, t) for bi, t in calls if t['callee'].get('name') == 'all']
+        if len(alls) != 1:
+            r.violate(key + '|not-all', 'Sequence::validate does not decide with exactly one `all` over the elements', b.file, b.line)
+            continue
+        bi, t = alls[0]
+        fnarg = b.tree_of_operand(t['args'][1]) if len(t['args']) > 1 else None
+        pred_ok = bool(fnarg and fnarg[0] == 'fn' and fnarg[1] == pred)
+        if not pred_ok and fnarg is not None:
+            # a closure that only forwards its parameter to the predicate and returns the answer
+            cid = next((x[2] for x in walk_tree(fnarg) if x[0] == 'agg' and x[1] == 'closure'), None)
+            cbj = f.bodies.get(cid) if cid else None
+            if cbj is not None:
+                cb = Body(cbj)
+                ccalls = [t2 for _, t2 in cb.calls()]
+                if len(ccalls) == 1 and (callee_def(ccalls[0]['callee']) or '') == pred:
+                    rets = [pf.ret for pf in all_path_facts(cb) if pf.returns]
+                    if rets and all(rt is not None and rt[0] == 'call' and rt[4] == pred for rt in rets):
+                        pred_ok = True
+        if not pred_ok:
+            r.violate(key + '|predicate', 'Sequence::validate tests its elements with %s instead of %s' % (tree_str(fnarg)[:60] if fnarg else None, pred), b.file, b.term_line(bi))
+            continue
+        # the source of the iteration is the whole of self and the verdict of `all` is the return value
+        src_ok = any(x[0] == 'call' and x[4].endswith('AsRef::as_ref') and _strip(x[2][0]) == ('arg', 1, 'self') for x in walk_tree(b.tree_of_operand(t['args'][0])))
+        ret_ok = False
+        for pf in all_path_facts(b):
+            if pf.returns and pf.ret is not None and pf.ret[0] == 'call' and pf.ret[4].endswith('Iterator>::all') or (pf.returns and pf.ret is not None and pf.ret[0] == 'call' and pf.ret[4].endswith('Iterator::all')):
+                ret_ok = True
+        if not src_ok:
+            r.violate(key + '|source', 'Sequence::validate does not iterate over self.as_ref()', b.file, b.term_line(bi))
+        elif not ret_ok:
+            r.violate(key + '|result', 'Sequence::validate does not return the verdict of `all` unchanged', b.file, b.line)
+        else:
+            r.sample({'sequence of': key.split('|')[1], 'decides with': 'all(%s) over self.as_ref().iter()' % pred})
+    r.floor('Sequence::validate impls', 2, n)
+    return r
